@@ -191,6 +191,27 @@ class Gen:
         for f in self.r.sample(timed, min(4, len(timed))):
             self.emit(f"get @{f['line']}", "probe_get")
 
+    def op_headburst(self):
+        """head:N, a collector run, frames of OTHER retention on the same (context, topic), head:N again: the second check must
+        count every frame of the topic, not only the head-retention appends it has seen (a per-topic count cache would not)"""
+        ctx, topic = self.r.choice(self.ctxs), self.r.choice(self.topics[:3])
+        n = self.r.choice([1, 2, 2, 3])
+        def ap(ttl):
+            ln = self.emit(f"append {ctx} {xh(topic)} - - {ttl}", "append_burst")
+            self.frames.append(dict(line=ln, ctx=ctx, topic=topic, ttl=ttl, kind="append"))
+        ap("head:%x" % n)
+        self.emit(self.r.choice(["gcstep", "drain"]), "gc")
+        for _ in range(n + self.r.randrange(0, 3)):
+            if self.r.random() < 0.2:
+                ln = self.emit(f"import #{self.r.randrange(1, 2 ** 40):x} {ctx} {xh(topic)} - - -", "import")
+                self.frames.append(dict(line=ln, ctx=ctx, topic=topic, ttl="-", kind="import"))
+            else:
+                ap(self.r.choice(["-", "forever", "time:36ee80", "head:a"]))
+        ap("head:%x" % n)
+        self.emit("drain", "gc")
+        self.emit(f"readsync - - {ctx}", "probe_read")
+        self.emit("rawdump", "rawdump")
+
     def op_rawdump(self):
         self.emit("rawdump", "rawdump")
 
@@ -237,7 +258,8 @@ class Gen:
         w.setdefault("lazyread", self.p.get("w_lazyread", 1))
         w.setdefault("lookalike", self.p.get("w_lookalike", 0.5))
         w.setdefault("rawdump", 1.5)
-        fns = {"rawdump": self.op_rawdump, "lookalike": self.op_lookalike, "register": self.op_register, "append": self.op_append, "import": self.op_import,
+        w.setdefault("headburst", self.p.get("w_headburst", 0.4))
+        fns = {"headburst": self.op_headburst, "rawdump": self.op_rawdump, "lookalike": self.op_lookalike, "register": self.op_register, "append": self.op_append, "import": self.op_import,
                "remove": self.op_remove, "tick": self.op_tick, "gc": self.op_gc,
                "reopen": self.op_reopen, "badctx": self.op_bad_ctx_append, "lazyread": self.op_lazyread}
         kinds = list(w)
